@@ -69,6 +69,18 @@ def gen_cases(tier: str, seed: int):
                 stmts.append(f"DELETE FROM T1 WHERE S = {qlit(_lit(r))}")
             elif x < 0.7:
                 stmts.append("SELECT ID, S FROM T1 ORDER BY ID")
+            elif x < 0.72:
+                # variables that had a value before the script: read, changed and read again, or unset
+                y = r.random()
+                if y < 0.35:
+                    stmts.append("SELECT $myvar AS BEFORE, $batch AS B")
+                elif y < 0.7:
+                    stmts.append("SET batch = $batch + 1")
+                    stmts.append(f"INSERT INTO T1 VALUES ($batch, {qlit(_lit(r))})")
+                elif fail_at is None:
+                    stmts.append("UNSET gone")
+                    fail_at = len(stmts)
+                    stmts.append("SELECT $gone AS G")
             elif x < 0.76:
                 stmts.append(f"SET myvar = {qlit(_lit(r))}")
                 stmts.append("SELECT $myvar AS V")
@@ -162,6 +174,12 @@ def _lit_features(stmts: list) -> bool:
 
 def _run_es(case: dict, env: core.Env, fa: Any, fb: Any) -> None:
     ca, cb = fa.connect("db1", "s1"), fb.connect("db1", "s1")
+    # session state from before the script: variables the script may set again, unset, or only read
+    for c_ in (ca, cb):
+        k_ = c_.cursor()
+        k_.execute("SET myvar = 'from before the script'")
+        k_.execute("SET batch = 41")
+        k_.execute("SET gone = 'will be unset'")
     text = render(case)
     cls = core.DictCursor if case["dict"] else snowflake_cursor()
     fail_at = case["fail_at"]
